@@ -105,6 +105,9 @@ class Enc:
             return v
         if sort == "str":
             return z3.String(name)
+        if sort == "fp":
+            # IEEE-754 binary64: NaN, infinities and signed zeros are values of the sort
+            return z3.FP(name, z3.Float64())
         if sort == "enum":
             # a ConnectionState value that is not a constant is the state of the connection the
             # function works on (single-connection assumption, stated in the claim)
@@ -122,6 +125,8 @@ class Enc:
             return "str"
         if is_enumish(t):
             return "enum"
+        if t == "f64":
+            return "fp"
         return None
 
     def ltype(self, local):
@@ -208,6 +213,14 @@ class Enc:
         if m:
             lo, hi = INT_RANGES[m.group(1)]
             return z3.IntVal(lo if m.group(2) == "MIN" else hi)
+        m = re.match(r"^const (-?\d+(?:\.\d+)?(?:[eE][+-]?\d+)?)f64$", txt)
+        if m:
+            return z3.FPVal(float(m.group(1)), z3.Float64())
+        m = re.match(r"^const (?:core::)?f64::(INFINITY|NEG_INFINITY|NAN|MAX|MIN)$", txt)
+        if m:
+            return {"INFINITY": z3.fpPlusInfinity(z3.Float64()), "NEG_INFINITY": z3.fpMinusInfinity(z3.Float64()),
+                    "NAN": z3.fpNaN(z3.Float64()), "MAX": z3.FPVal(1.7976931348623157e308, z3.Float64()),
+                    "MIN": z3.FPVal(-1.7976931348623157e308, z3.Float64())}[m.group(1)]
         m = re.match(r"^const '(.)'$", txt)
         if m:
             return z3.IntVal(ord(m.group(1)))
@@ -336,6 +349,14 @@ class Enc:
                 if a is not None and b is not None and a.sort() == b.sort():
                     op = m.group(1)
                     try:
+                        if z3.is_fp(a):
+                            # IEEE comparisons: every ordered comparison with NaN is false, -0 == +0
+                            f = {"Eq": z3.fpEQ, "Lt": z3.fpLT, "Le": z3.fpLEQ, "Gt": z3.fpGT, "Ge": z3.fpGEQ}.get(op)
+                            if f:
+                                return f(a, b)
+                            if op == "Ne":
+                                return z3.Not(z3.fpEQ(a, b))
+                            return None
                         if op == "Eq":
                             return a == b
                         if op == "Ne":
